@@ -28,7 +28,10 @@ PROPS = {
     'C02': dict(engine='codec', modes=['hostile'], witness=False, values=(6, 30)),
     'C03': dict(engine='codec', modes=['bytes'], witness=True, values=(60, 2000), also_rel=True),
     'C04': dict(engine='codec', modes=['lang'], witness=True, values=(6, 14), also_rel=True),
-    'C05': dict(engine='codec', modes=['cut'], witness=False, values=(8, 60), also_rel=True),
+    # second stage: cuts of one table version's encoding read as another version (entries the reader skips)
+    'C05': dict(witness=False, stages=[
+        dict(engine='codec', modes=['cut'], values=(8, 60), also_rel=True),
+        dict(engine='pair', pool='x', modes=['xcut'], values=(3, 12))]),
     'C06': dict(engine='codec', modes=['cap'], witness=False, values=(10, 150)),
     'C10': dict(witness=False, stages=[
         dict(engine='codec', modes=['fault'], values=(10, 150)),
